@@ -97,7 +97,8 @@ def term_expr(rng, depth, allow_pipe=True):
     if r < 0.3:
         return ("un", rng.choice("+-"), term_expr(rng, depth - 1, allow_pipe))
     if r < 0.38 and allow_pipe:
-        return ("bin", "|", term_expr(rng, depth - 1, False), term_expr(rng, depth - 1, False))
+        # now and then a group-specific term inside either side of another one: refused, or nothing of it is dropped
+        return ("bin", "|", term_expr(rng, depth - 1, rng.random() < 0.15), term_expr(rng, depth - 1, rng.random() < 0.1))
     if r < 0.43:
         if rng.random() < 0.2:
             # exponents the algebra has no meaning for: refused, or at least not silently dropped
